@@ -771,7 +771,7 @@ func pubScenario(w *vfWorld, r *vfkit.R, focus string, idx int) {
 
 func pubRun(t *testing.T, focus string) {
 	r := vfkit.New(focus)
-	defer r.Flush(true)
+	defer r.Finish()
 	e := vfBoot(vfConfig{Push: true, Media: true})
 	vfInstallRecorder(e)
 	rng := r.Rand(1)
